@@ -10,10 +10,10 @@ NOT_BUILT = {
  "C01": "`LogWriter.Write/Switch`, `WAL.Switch`/`consumeRecordSerial` bodies (their behaviour enters the replay-order lemma as trusted descriptions), bounded stand-in for the serial consumer, `commitSnapshot`, full no-panic sweep of `FastUnmarshalMultiRows`",
  "C02": "`mergeRecRow`, `mergeRecordSchema`, dispatch of `MergeRecordLimitRows`, `InitSections`, descending searches",
  "C03": "marshal/unmarshal round-trip lemma of the intent log, `acquire/CompactDone`, `RenameTmpFiles`, content preservation of the merge itself",
- "C06": "nopanic sweep of the tag/field splitters, precision multiplier overflow, `AppendFieldToCol` lemma, bounded un-escaper",
- "C07": "layer 2 (trailer, chunk meta, record codec), mode byte of float/bool/string coders (integer and timestamp are built), decoder nopanic sweep",
- "C08": "other limit helpers + lemma `limit_chunking`, all other operators",
- "C09": "`Location` segment walk, `matchPreAgg`, pre-aggregation builders' folds",
+ "C06": "nopanic sweep of the tag/field splitters, `AppendFieldToCol` lemma, bounded un-escaper, `IsValidNumber` against the grammar (the table is under contract, the automaton walk is not)",
+ "C07": "layer 2 (trailer, chunk meta, record codec), bodies of the compressed schemes (tags, lengths and dispatch of all five column coders are built), decoder nopanic sweep",
+ "C08": "other limit helpers + lemma `limit_chunking`, the reduce side of first/last/min/max (type parameter admits strings), boolean/string merges, `FillTransform` beyond the fast path, all other operators",
+ "C09": "`Location` segment walk, `matchPreAgg`, pre-aggregation builders' folds, min/max/first/last folds of `AggregateData` (sum/count are built)",
  "C10": "`GenerateUUID`, `seriesByBinaryExpr`, `seriesByExprIterator`, key codecs",
  "C11": "`createShardGroup` cache, byte equality of write/read shard keys, bounded stand-in",
  "C12": "literal printers (`NumberLiteral` §8.9), `FormatDuration` lemma, plan/chunk codecs, `wf_paren`, the yacc side",
